@@ -89,6 +89,7 @@ fn cycle(ctx: &mut Context, sys: &TransitionSystem) -> Result<(String, Transitio
 }
 
 fn check_system(rep: &mut Report, ctx: &mut Context, sys: &TransitionSystem, label: &str, replay: serde_json::Value, fast: &mut Proc, hard: &mut Portfolio, soft: bool) {
+    crate::panics::set_context(format!("system {label}"));
     rep.count("programs", 1);
     let (text, sys2) = match cycle(ctx, sys) {
         Ok(x) => x,
